@@ -115,7 +115,8 @@ class Worker:
             if idx == -2 and any(r.get("t") == "stats" for r in recs) and any(r.get("t") == "violation" for r in recs):
                 break   # finished; the non-zero exit status only repeats reports the monitor already turned into violations
             self.crashes.append((idx, self.rc, self.stderr_text()))
-            if idx is None or idx < 0 or attempt == max_restarts:
+            hangs = sum(1 for c in self.crashes if c[1] == 97)
+            if idx is None or idx < 0 or attempt == max_restarts or hangs >= 2:
                 self.gave_up = True
                 break
             start = idx + 1
@@ -329,17 +330,24 @@ def run_property(prop, tier, seed, replay=None):
     try:
         # ---- single replay
         if replay:
-            st, recs, w = replay_one(prop, replay, seed, tier, tmp, "replay")
-            if st == "error" or st == "timeout":
-                eprint("replay %s: %s" % (replay, st))
-                return 2
-            if st == "crash":
-                tags = classify_crash(w.stderr_text(), w.rc) + witness_tags(replay)
-                eprint(w.stderr_text(4000))
-                report(prop + ".crash", tags, replay, "worker died rc=%s" % w.rc)
-            for r in recs:
-                if r.get("t") == "violation":
-                    report(r["claim"], r.get("tags", []), replay, r.get("detail", ""))
+            cfgs = pdef.get("replay_cfgs") or [None]
+            hashes = {}
+            for cfg in cfgs:
+                st, recs, w = replay_one(prop, replay, seed, tier, tmp, "replay_%s" % (cfg or "own"), cfg)
+                if st == "error" or st == "timeout":
+                    eprint("replay %s: %s" % (replay, st))
+                    return 2
+                if st == "crash":
+                    tags = classify_crash(w.stderr_text(), w.rc) + witness_tags(replay)
+                    eprint(w.stderr_text(4000))
+                    report(prop + ".crash", tags, replay, "worker died rc=%s" % w.rc)
+                for r in recs:
+                    if r.get("t") == "violation":
+                        report(r["claim"], r.get("tags", []), replay, r.get("detail", ""))
+                    elif r.get("t") == "h":
+                        hashes[cfg] = r["h"]
+            if len(cfgs) > 1 and len(set(hashes.values())) > 1:
+                report(prop + ".geometry_differs", ["cross_build_hash_mismatch"], replay, "result hashes per build: %s" % hashes)
             for k in known_seen.values():
                 print("KNOWN-FINDING: property=%s %s" % (prop, k["f"]["text"]))
             for (claim, tags, wit, detail) in viol_lines:
